@@ -1,12 +1,291 @@
-//! C06 — not built yet.
-use crate::runner::{Outcome, Summary};
-use crate::Ctx;
-use serde_json::Value;
+//! C06 — names are preserved exactly and consistently by parsing.
+//!
+//! replay: TLC cases {pos, name, decl, reserved, text, want} from spec/mc/MC_QuilPrintNames.tla: a name in one of
+//!         60 name-bearing positions (optionally after `DECLARE name REAL[2]`).  The text is parsed by the real
+//!         parser and every name of the parsed program (c02::to_abs) is compared with the names the text was
+//!         written with.
+//! drive:  identifiers harvested from the repository's fixtures, with seeded case flips, dashes and underscores,
+//!         placed in templates; events reset/parsed/printed/done (as C02) + named go to QuilPrintTrace.
+//!
+//! Verdict (statement): a name of the parsed program that differs from the written one (any byte), in
+//! particular a region used under another spelling than it was declared with.  The reserved words pi, i and the
+//! expression functions as bare words inside an expression are excepted (case `reserved`).  A text the parser
+//! rejects is not a verdict (the statement speaks about names that reach the parsed program): divergence.
 
-pub fn replay(_ctx: &Ctx, _case: &Value) -> Outcome {
-    panic!("C06: replay not implemented")
+use super::c02;
+use crate::runner::{Outcome, Summary, Violation};
+use crate::util;
+use crate::Ctx;
+use quil_rs::quil::Quil;
+use quil_rs::Program;
+use rand::seq::SliceRandom;
+use rand::Rng;
+use serde_json::{json, Value};
+use std::str::FromStr;
+
+/// keys of the encoding whose string values are not names
+const NOT_NAMES: &[&str] = &["k", "t", "op", "cmd", "ty", "lex", "f", "word", "r", "i", "mods"];
+/// keys holding quoted strings (character arrays): frame names and the like belong to C07
+const QUOTED: &[&str] = &["filename", "data", "frame_names"];
+
+/// every name of an abstracted listing, in document order
+pub fn names_of(v: &Value, key: &str, out: &mut Vec<String>) {
+    match v {
+        Value::String(s) => {
+            if !NOT_NAMES.contains(&key) {
+                out.push(s.clone())
+            }
+        }
+        Value::Array(a) => {
+            if QUOTED.contains(&key) || NOT_NAMES.contains(&key) {
+                return;
+            }
+            // a character array (frame name, string attribute) is not a name
+            if !a.is_empty() && a.iter().all(|x| x.as_str().map(|s| s.chars().count() == 1).unwrap_or(false)) && (key == "name" || key == "s") {
+                return;
+            }
+            a.iter().for_each(|x| names_of(x, key, out))
+        }
+        Value::Object(m) => {
+            // "s" of a string attribute value {"t":"str","s":[chars]} is handled by the array rule above
+            let mut keys: Vec<&String> = m.keys().collect();
+            keys.sort();
+            for k in keys {
+                if QUOTED.contains(&k.as_str()) {
+                    continue;
+                }
+                names_of(&m[k], k, out)
+            }
+        }
+        _ => {}
+    }
 }
 
-pub fn drive(_ctx: &Ctx) -> Summary {
-    panic!("C06: drive not implemented")
+fn all_names(listing: &Value) -> Vec<String> {
+    let mut out = vec![];
+    names_of(listing, "", &mut out);
+    out
+}
+
+fn sorted(mut v: Vec<String>) -> Vec<String> {
+    v.sort();
+    v
+}
+
+/// region names used inside expressions of an abstracted listing
+fn expr_regions(v: &Value, out: &mut Vec<String>) {
+    match v {
+        Value::Object(m) => {
+            if m.get("t").and_then(|t| t.as_str()) == Some("addr") {
+                out.push(m["m"]["name"].as_str().unwrap().to_string());
+            }
+            m.values().for_each(|x| expr_regions(x, out))
+        }
+        Value::Array(a) => a.iter().for_each(|x| expr_regions(x, out)),
+        _ => {}
+    }
+}
+
+/// the statement on one parsed text: names that are `name` up to letter case must be `name` exactly
+fn case_changed(got: &[String], name: &str) -> Vec<String> {
+    got.iter().filter(|g| g.to_lowercase() == name.to_lowercase() && g.as_str() != name).cloned().collect()
+}
+
+pub fn replay(_ctx: &Ctx, case: &Value) -> Outcome {
+    if let Some(h) = case.get("history") {
+        // a rejected recorded history: re-run its text
+        let text = h[0]["src"].as_str().unwrap_or("").to_string();
+        let name = h.as_array().unwrap().iter().find(|e| e["ev"] == "named").map(|e| e["name"].as_str().unwrap().to_string()).unwrap_or_default();
+        let mut o = Outcome::ok(true);
+        if let Ok(p) = Program::from_str(&text) {
+            let got = all_names(&Value::Array(c02::program_abs(&p)));
+            let changed = case_changed(&got, &name);
+            if !changed.is_empty() || !got.iter().any(|g| g == &name) {
+                o.violate(Violation::new("names of the parsed program", json!(name), json!(got)).note(text));
+            }
+        }
+        return o;
+    }
+    let name = case["name"].as_str().unwrap().to_string();
+    let pos = case["pos"].as_str().unwrap();
+    let text = case["text"].as_str().unwrap();
+    let reserved = case["reserved"].as_bool().unwrap();
+    let nontrivial = name.chars().any(|c| c.is_ascii_uppercase() || c == '-') || pos.starts_with("expr.");
+    let mut o = Outcome::ok(nontrivial);
+    o.count(pos);
+    let want = c02::strip_q(&case["want"]);
+    let p = match Program::from_str(text) {
+        Ok(p) => p,
+        Err(e) => {
+            if reserved {
+                o.count("reserved word rejected");
+            } else {
+                o.diverge(format!("{pos}: the parser rejects {text:?}: {e}"));
+            }
+            return o;
+        }
+    };
+    let got_listing = c02::strip_q(&Value::Array(c02::program_abs(&p)));
+    if reserved {
+        // excepted by the statement; the model only predicts that the word does not become a region
+        let mut regions = vec![];
+        expr_regions(&got_listing, &mut regions);
+        if pos.starts_with("expr.") && regions.iter().any(|r| r == &name) {
+            o.diverge(format!("{pos}: the model treats {name:?} as reserved inside an expression, the parser made it a region"));
+        }
+        return o;
+    }
+    let (got, wanted) = (all_names(&got_listing), all_names(&want));
+    let changed = case_changed(&got, &name);
+    if !changed.is_empty() {
+        o.violate(Violation::new("letter case of a name", json!(name), json!(changed)).note(format!("{pos}: {text:?}")));
+    } else if sorted(got.clone()) != sorted(wanted.clone()) {
+        o.violate(Violation::new("names of the parsed program", json!(wanted), json!(got)).note(format!("{pos}: {text:?}")));
+    } else if got_listing != want {
+        o.diverge(format!("{pos}: names preserved but the listing differs from the model's: {got_listing} vs {want}"));
+    }
+    // the program also survives printing with its names (C02 on this text; informational here)
+    if let Ok(t1) = p.to_quil() {
+        match Program::from_str(&t1) {
+            Ok(p1) => {
+                let again = all_names(&c02::strip_q(&Value::Array(c02::program_abs(&p1))));
+                if sorted(again.clone()) != sorted(got) {
+                    o.violate(Violation::new("names after printing and re-parsing", json!(wanted), json!(again)).note(format!("{pos}: {t1:?}")));
+                }
+            }
+            Err(e) => o.diverge(format!("{pos}: printed text {t1:?} does not parse: {e}")),
+        }
+    }
+    o
+}
+
+// ------------------------------------------------------------------------------------------- drive
+
+/// templates: {N} is the name.  `bare_expr`: the name occurs as a bare word inside an expression.
+const TEMPLATES: &[(&str, bool)] = &[
+    ("DECLARE {N} REAL[2]\nRX({N}) 0", true),
+    ("DECLARE {N} REAL[2]\nRX(2*{N}[1]+{N}) 0", true),
+    ("DECLARE {N} BIT\nMEASURE 0 {N}", false),
+    ("DECLARE {N} REAL\nSET-PHASE 0 \"rf\" cos({N})/2", true),
+    ("DECLARE {N} REAL\nDELAY 0 {N}", true),
+    ("DECLARE {N} BIT\nJUMP-WHEN @{N} {N}\nLABEL @{N}", false),
+    ("MOVE {N}[1] 1\nADD {N} {N}[1]", false),
+    ("{N} 0 1\nDAGGER {N}(pi) q", false),
+    ("DEFGATE {N}(%{N}) AS MATRIX:\n    cos(%{N}), 0\n    0, 1\n{N}(1.0) 0", false),
+    ("PULSE 0 \"rf\" {N}(duration: 1.0)\nCAPTURE 0 \"ro\" flat({N}: 1.0) {N}", false),
+    ("PULSE 0 \"rf\" q0/{N}", false),
+    ("RX(%{N}) 0", false),
+    ("PRAGMA {N} {N} 1 \"x\"", false),
+    ("X {N}\nMEASURE {N} ro\nRESET {N}\nFENCE {N} 0", false),
+    ("DEFCAL X {N}:\n    FENCE {N}\n    DELAY {N} \"rf\" 1.0", false),
+    ("DEFCAL MEASURE {N} {N}:\n    CAPTURE {N} \"ro\" flat {N}", false),
+    ("CALL {N} {N} {N}[1] 2", false),
+    ("LOAD ro {N} idx\nSTORE {N} idx ro", false),
+    ("DEFCIRCUIT {N}(%{N}) {N}:\n    RX(%{N}) {N}", false),
+    ("DEFWAVEFORM {N}(%{N}):\n    %{N}, 1", false),
+    ("DECLARE x BIT[8] SHARING {N} OFFSET 1 BIT", false),
+    ("MEASURE!{N} 0 ro[0]", false),
+];
+
+const KEYWORDS: &[&str] = &[
+    "ADD", "AND", "ASHR", "CALL", "CAPTURE", "CONVERT", "DECLARE", "DEFCAL", "DEFCIRCUIT", "DEFFRAME", "DEFGATE", "DEFWAVEFORM", "DELAY", "DIV",
+    "EQ", "EXCHANGE", "FENCE", "GE", "GT", "HALT", "INCLUDE", "IOR", "JUMP", "JUMP-UNLESS", "JUMP-WHEN", "LABEL", "LE", "LOAD", "LT", "MEASURE",
+    "MOVE", "MUL", "NEG", "NOP", "NOT", "PRAGMA", "PULSE", "RAW-CAPTURE", "RESET", "SET-FREQUENCY", "SET-PHASE", "SET-SCALE", "SHIFT-FREQUENCY",
+    "SHIFT-PHASE", "SHL", "SHR", "STORE", "SUB", "SWAP-PHASES", "WAIT", "XOR", "BIT", "OCTET", "REAL", "INTEGER", "CONTROLLED", "DAGGER", "FORKED",
+    "AS", "MATRIX", "mut", "NONBLOCKING", "OFFSET", "PAULI-SUM", "PERMUTATION", "SEQUENCE", "SHARING",
+];
+const EXPR_RESERVED: &[&str] = &["pi", "i", "sin", "cos", "cis", "exp", "sqrt"];
+
+fn is_identifier(s: &str) -> bool {
+    let cs: Vec<char> = s.chars().collect();
+    !cs.is_empty()
+        && (cs[0].is_ascii_alphabetic() || cs[0] == '_')
+        && *cs.last().unwrap() != '-'
+        && cs.iter().all(|c| c.is_ascii_alphanumeric() || *c == '_' || *c == '-')
+        && !s.contains("--")
+        && !KEYWORDS.contains(&s)
+}
+
+fn harvest() -> Vec<String> {
+    let mut words: Vec<String> = vec![];
+    for f in ["calibration_cz.quil", "calibration_cz_phase.quil", "calibration_measure.quil", "calibration_rx.quil", "calibration_xy.quil"] {
+        if let Ok(t) = std::fs::read_to_string(format!("/repo/quil-rs/tests/programs/{f}")) {
+            for w in t.split(|c: char| !(c.is_ascii_alphanumeric() || c == '_' || c == '-')) {
+                if is_identifier(w) && !words.iter().any(|x| x == w) {
+                    words.push(w.to_string());
+                }
+            }
+        }
+    }
+    for w in ["theta", "ro", "q0_q1_xy", "sqrtiSWAP", "Pi2", "sine", "In", "X-90", "_tmp", "readout-1"] {
+        if !words.iter().any(|x| x == w) {
+            words.push(w.to_string());
+        }
+    }
+    words
+}
+
+fn mutate_name(r: &mut impl Rng, w: &str) -> String {
+    let mut s: String = w.chars().map(|c| if c.is_ascii_alphabetic() && r.gen_bool(0.4) {
+        if c.is_ascii_uppercase() { c.to_ascii_lowercase() } else { c.to_ascii_uppercase() } } else { c }).collect();
+    match r.gen_range(0..5) {
+        0 => s = format!("_{s}"),
+        1 => s = format!("{s}-{}", r.gen_range(0..99)),
+        2 => s = format!("{s}-B_{}", r.gen_range(0..9)),
+        _ => {}
+    }
+    s
+}
+
+pub fn drive(ctx: &Ctx) -> Summary {
+    let n = ctx.arg_u64("n", 300);
+    let path = ctx.arg_str("out").expect("--out");
+    let mut out = std::io::BufWriter::new(std::fs::File::create(path).expect("create trace"));
+    let mut rng = util::rng(ctx.seed, 6);
+    let mut sum = Summary::default();
+    let words = harvest();
+    for _ in 0..n {
+        let (tpl, bare_expr) = *TEMPLATES.choose(&mut rng).unwrap();
+        let name = loop {
+            let w = words.choose(&mut rng).unwrap().clone();
+            let c = mutate_name(&mut rng, &w);
+            // excluded by the statement: reserved words where the name is a bare word of an expression
+            // (and a name must not coincide, up to case, with a word the template itself is written with)
+            let fixed: Vec<String> = tpl.replace("{N}", " ").split(|ch: char| !(ch.is_ascii_alphanumeric() || ch == '_' || ch == '-'))
+                .map(|w| w.to_lowercase()).collect();
+            if is_identifier(&c) && !fixed.contains(&c.to_lowercase()) && !(bare_expr && EXPR_RESERVED.contains(&c.to_lowercase().as_str())) {
+                break c;
+            }
+        };
+        let src = tpl.replace("{N}", &name);
+        let written = tpl.matches("{N}").count();
+        let rt = c02::round_trip(&src);
+        let Some(p) = rt.parsed.as_ref() else {
+            let mut o = Outcome::skip();
+            o.diverge(format!("the parser rejects the template text {src:?}"));
+            sum.absorb(&json!({"src": src}), &o, true);
+            continue;
+        };
+        let mut o = Outcome::ok(name.chars().any(|c| c.is_ascii_uppercase() || c == '-') || bare_expr);
+        util::emit(&mut out, &json!({"ev": "reset", "fam": "text", "src": src}));
+        let listing = c02::program_abs(p);
+        util::emit(&mut out, &json!({"ev": "parsed", "listing": listing}));
+        util::emit(&mut out, &json!({"ev": "printed", "t1": rt.t1.clone().unwrap_or_default()}));
+        let got = all_names(&Value::Array(listing));
+        // the names of the parsed program that are the written name up to letter case
+        let same_folded: Vec<String> = got.iter().filter(|g| g.to_lowercase() == name.to_lowercase()).cloned().collect();
+        util::emit(&mut out, &json!({"ev": "named", "name": name, "written": written, "got": same_folded}));
+        if same_folded.iter().any(|g| g != &name) || same_folded.len() != written {
+            o.violate(Violation::new("names of the parsed program", json!(vec![name.clone(); written]), json!(same_folded)).note(format!("{src:?}")));
+        }
+        let ok = rt.failure.is_none();
+        util::emit(&mut out, &json!({"ev": "done", "reparsed": ok, "equal": ok, "same": ok}));
+        if let Some((obs, want, got)) = rt.failure {
+            // a C02 matter; reported here as divergence so that C06 only judges names
+            o.diverge(format!("round trip of {src:?}: {obs}: {want} vs {got}"));
+        }
+        o.count_n("events", 5);
+        sum.absorb(&json!({"src": src}), &o, true);
+    }
+    sum
 }
